@@ -76,3 +76,33 @@ var vpRePatterns = []struct {
 }
 
 var vpReSubjects = []string{"", "abc", "xabcx", "abcabc", "abc\n", "ab", "a", "b", "123", "12", "example.com", "xexample.com", "ABC", "foo bar", "foobar", "a.b", "axb", "az", "a\nz", "aa", "y", "é", "1"}
+
+func init() {
+	vpHarnesses["VP_C17_case"] = VP_C17_case
+}
+
+// C17/case: lower / upper map case on text outside ASCII. CONCRETE POOL (the
+// Unicode case tables cannot be explored symbolically); expectations written
+// by hand from the Unicode simple case mappings.
+func VP_C17_case() {
+	pool := []struct{ in, lower, upper string }{
+		{"É", "é", "É"}, {"école É", "école é", "ÉCOLE É"}, {"ΑΒΓ", "αβγ", "ΑΒΓ"}, {"Привет", "привет", "ПРИВЕТ"}, {"éé", "éé", "ÉÉ"},
+		{"Straße", "straße", "STRAßE"}, {"ǅ", "ǆ", "Ǆ"}, {"中文Ab", "中文ab", "中文AB"}, {"Hello", "hello", "HELLO"}, {"", "", ""},
+		{"ÀÉÎÕÜ", "àéîõü", "ÀÉÎÕÜ"}, {"ñandú", "ñandú", "ÑANDÚ"}, {"Ωmega", "ωmega", "ΩMEGA"},
+	}
+	p := pool[vpChoice("s", len(pool))]
+	lower, ok1 := vpBuiltin("lower").(func(string) (string, error))
+	upper, ok2 := vpBuiltin("upper").(func(string) (string, error))
+	vpAssert("C17/case/present", ok1 && ok2)
+	if !(ok1 && ok2) {
+		return
+	}
+	l, e1 := lower(p.in)
+	u, e2 := upper(p.in)
+	vpObserve("case", p.in, l, u)
+	vpAssert("C17/case/lower-maps-case", e1 == nil && l == p.lower)
+	vpAssert("C17/case/upper-maps-case", e2 == nil && u == p.upper)
+	l2, _ := lower(u)
+	vpAssert("C17/case/lower-of-upper-is-lower", l2 == p.lower)
+	vpReach("C17/case/done")
+}
